@@ -102,8 +102,88 @@ result = [n, bad[:5]]
     return dict(unit="address-rac", func="Compiler (run-time check)", paths=n, obligations=[ob], wall=0.0)
 
 
+INCLUDE_PROBES = [
+    # (main file, included file, True when the included file moves its own location counter / sets a base: the region of finding D38)
+    (".link 1000\nnop\n.include \"inc.mac\"\nc: .word c\n", "nop\na: .word a\n.blkb 4\nb: .word b\n", False),
+    (".link 1000\nnop\n.include \"inc.mac\"\nc: .word c\n", "a: .word a\n.even\n.ascii \"xyz\"\n.even\nb: .word b\n", False),
+    ("nop\n.include \"inc.mac\"\nc: .word c\n.include \"inc.mac\"\nd: .word d\n", "s: .word s\n.repeat 2 { .word . }\nt: .word t\n", False),
+    (".link 1000\nnop\n.include \"inc.mac\"\nc: .word c\n", "nop\n. = 1010\na: .word a\n", True),
+    (".link 1000\nnop\n.include \"inc.mac\"\nc: .word c\n", ". = 4000\na: .word a\n", True),
+    (".link 1000\nnop\n.include \"inc.mac\"\nc: .word c\n", ".link 4000\na: .word a\n", True),
+    ("nop\n.include \"inc.mac\"\nc: .word c\n", "nop\n. = 1010\na: .word a\n", True),
+]
+
+
+def _run_include_probes(tree):
+    code = r'''
+import os, tempfile, shutil
+from pdpy11 import reports
+from pdpy11.parser import parse
+from pdpy11.compiler import Compiler
+from pdpy11.deferred import wait
+out = []
+for main, inc, _ in %r:
+    d = tempfile.mkdtemp(prefix="pyvc-inc-")
+    try:
+        open(os.path.join(d, "inc.mac"), "w").write(inc)
+        errs = []
+        try:
+            with reports.handle_reports(lambda p, i, *l: errs.append(i) if p is not reports.warning else None):
+                comp = Compiler()
+                base, code = comp.compile_and_link_files([parse(os.path.join(d, "m.mac"), main)])
+            wrong = []
+            for key, (sym, val) in comp.symbols.container.values():
+                nm = key.split(".")[-1] if isinstance(key, str) else str(key)
+                v = wait(val)
+                if len(nm) == 1 and isinstance(v, int):
+                    off = v - base
+                    if not (0 <= off <= len(code) - 2) or int.from_bytes(code[off:off + 2], "little") != v %% 65536:
+                        wrong.append([nm, oct(v), oct(base), code.hex()])
+            out.append(["ok", wrong])
+        except reports.UnrecoverableError:
+            out.append(["fail", errs[:1]])
+        except Exception as e:
+            out.append(["crash", type(e).__name__])
+    finally:
+        shutil.rmtree(d, ignore_errors=True)
+result = out
+''' % (INCLUDE_PROBES,)
+    r = driver.native([{"kind": "py", "code": code}], tree, timeout=600)[0]
+    return r["result"] if r["status"] == "ok" else None
+
+
+def unit_include_probes(eng=None):
+    """run-time check: every single-letter label of an including / included file is followed by '.word <itself>' - the word found at (label - base) is the label's value.
+    Finding D38: an included file that moves its own location counter ('. = X') or has a '.link' is given a base of its own; its labels are then not where its bytes lie."""
+    res = _run_include_probes(driver.tree_root())
+    bad, known = [], []
+    if res is None:
+        bad.append("the probe script failed")
+    else:
+        for (main, inc, rebases), r in zip(INCLUDE_PROBES, res):
+            if r[0] == "crash" or (r[0] == "ok" and r[1]):
+                (known if rebases and r[0] == "ok" and "D38" in common.ACTIVE_FINDINGS else bad).append([inc, r])
+            elif r[0] == "fail" and not rebases:
+                bad.append([inc, r])
+    status = "failed" if bad else ("known-region" if known else "proved")
+    ob = dict(label="labels-of-including-and-included-files-lie-where-their-bytes-are", kind="rac", status=status, secs=0.0, path=[], witness=None, detail=str(dict(new=bad[:3], known_D38=known[:2])),
+              events=[], smt2=None, backend="cpython-native", unit="include-rac", func="Compiler.compile_include (run-time check)", cases=len(INCLUDE_PROBES), cfg=dict(kind="include-rac"))
+    return dict(unit="include-rac", func="Compiler.compile_include (run-time check)", paths=len(INCLUDE_PROBES), obligations=[ob], wall=0.0)
+
+
+def witness_D38(tree):
+    res = _run_include_probes(tree)
+    if res is None:
+        return False, "probe script failed"
+    hit = [(inc, r[1][0][:2]) for (m, inc, rebases), r in zip(INCLUDE_PROBES, res) if rebases and r[0] == "ok" and r[1]]
+    return bool(hit), "included file %r: label %s is not where its bytes lie" % (hit[0][0], hit[0][1]) if hit else "every probe lies where its bytes are (or is refused)"
+
+
+FINDING_WITNESS = dict(globals().get("FINDING_WITNESS", {}), D38=witness_D38)
+
+
 def units(tier):
-    us = [("rac", "unit_rac", dict(tier=tier)), ("include", "unit_include", {}), ("insert_file", "unit_insert_file", {}), ("repeat", "unit_repeat", {})]
+    us = [("rac", "unit_rac", dict(tier=tier)), ("include-rac", "unit_include_probes", {}), ("include", "unit_include", {}), ("insert_file", "unit_insert_file", {}), ("repeat", "unit_repeat", {})]
     for name, fn, kw in deferred_c.all_units():
         if name.split("[")[0] in ("length", "concat", "construct", "wait"):
             us.append((name, fn, kw))
@@ -155,6 +235,12 @@ def canary(eng):
 
 def replay(o, tree):
     label = o.get("label", "")
+    if (o.get("cfg") or {}).get("kind") == "include-rac":
+        res = _run_include_probes(tree) or []
+        bad = [[m, inc, r] for (m, inc, rebases), r in zip(INCLUDE_PROBES, res) if r[0] == "crash" or (r[0] == "ok" and r[1]) or (r[0] == "fail" and not rebases)]
+        known = set(i_ for _, i_, rb in INCLUDE_PROBES if rb) if "D38" in common.ACTIVE_FINDINGS else set()
+        new = [b for b in bad if b[1] not in known or b[2][0] != "ok"]
+        return dict(jobs=None, experiment="main file + included file, every label followed by '.word <itself>'", expected="the word at (label - base) is the label's value", observed=new[:4], reproduced=bool(new))
     if "late binding" in label:
         # a '. = X' whose zero fill is computed later: the start address, the state ('.') and the statement it reads are those of the skip itself
         progs = [(".link 1000\n.blkb x\n. = 1100\nnop\nx = 10\n", (b"\0" * 64 + b"\xa0\x00").hex()),
